@@ -240,6 +240,11 @@ def gen_cases(rng, thorough):
         cases += with_chunks(rng, b, "vecplain", chunk_variants(rng, b, operated_dim(b), nsample=1)[:6])
     for k, c in enumerate(cases):
         c["id"] = k + 1
+        # the property speaks of floating-point data (integer dask data is outside it: xgcm declares the input's
+        # dtype for the lazy result, see DESIGN 10.4), so the dtype variants of C01's generator are kept floating
+        d = c["args"]["data"]
+        if d.get("dtype") in ("int32", "int64"):
+            c["args"] = dict(c["args"], data=dict(d, dtype="float32" if d["dtype"] == "int32" else "float64"))
     return cases
 
 
